@@ -369,6 +369,48 @@ func c13(c *Ctx) {
 	checkNoDeadComparisons(p, r, "C13.R7", inPk)
 	checkErrorPolarity(p, r, "C13.R8", inPk)
 
+	// ---- R7 (clause) a validation is not inverted against the use that follows it: reflect.Value.Call / CallSlice is never
+	// reached on the side of a `Kind() == reflect.Func` test of the same value where it is NOT a func (it would panic for
+	// every accepted input, and the inputs it was meant for are the ones rejected)
+	for _, f := range p.Funcs {
+		if !inPk(relPkg(f)) || !strings.HasPrefix(pkgPathOf(f), Mod) || f.Blocks == nil {
+			continue
+		}
+		nInF := 0
+		eachInstr(f, func(i ssa.Instruction) {
+			cl, ok := i.(*ssa.Call)
+			if !ok {
+				return
+			}
+			cn := calleeName(cl.Common())
+			if cn != "(reflect.Value).Call" && cn != "(reflect.Value).CallSlice" {
+				return
+			}
+			recv := resolveLocal(cl.Call.Args[0])
+			for _, g := range guardsAt(cl.Block()) {
+				k, kv, isK := kindTest(g.Cond)
+				neg := false
+				if !isK {
+					if bo, isB := g.Cond.(*ssa.BinOp); isB && bo.Op == token.NEQ {
+						if kc, isC := constInt(bo.Y); isC && strings.HasSuffix(bo.X.Type().String(), "reflect.Kind") {
+							k, kv, isK, neg = kc, bo.X, true, true
+						}
+					}
+				}
+				if !isK || k != 19 {
+					continue
+				}
+				kc, isCall := resolveLocal(kv).(*ssa.Call)
+				if !isCall || calleeName(kc.Common()) != "(reflect.Value).Kind" || resolveLocal(kc.Call.Args[0]) != recv {
+					continue
+				}
+				isFuncHere := g.Pol != neg
+				nInF++
+				r.Check(isFuncHere, "C13.R7", "callback called where it is known to be a func in "+shortName(f)+" #"+itoa2(nInF), p.Pos(posOf(cl)), "Call on the func side of the kind test",
+					"the value is called on the side of its kind test where it is known NOT to be a func: the validation is inverted — every valid callback is rejected and an invalid one reaches reflect's own panic")
+			}
+		})
+	}
 	// ---- R5 (clause) like is compared with like: a comparison between two reflect.Type counts compares parameter counts with
 	// parameter counts or result counts with result counts, never one with the other
 	nCnt := 0
